@@ -380,4 +380,55 @@ def compare_real(concepts, result, source, exp, raised, rv, case, derived=False)
         fails.append(f'{what}: result differs from a fresh definition built from its own triple (residue)')
     if len(result.bools) != len(result.objects) or any(len(r) != len(result.properties) for r in result.bools):
         fails.append(f'{what}: bools is not rectangular')
+    if not fails:
+        fails += residue_probes(concepts, result, case, what)
+    return fails
+
+
+def _names_in(case):
+    out = list(case['objects']) + list(case['properties'])
+    if 'other' in case:
+        out += list(case['other']['objects']) + list(case['other']['properties'])
+
+    def walk(x):
+        if isinstance(x, str):
+            out.append(x)
+        elif isinstance(x, (list, tuple)):
+            for y in x:
+                walk(y)
+    walk(case['op'][1:])
+    seen = []
+    for x in out + ['n', 'q']:
+        if x not in seen:
+            seen.append(x)
+    return seen
+
+
+def residue_probes(concepts, result, case, what):
+    """no residue of removed or renamed names may reappear later: after the step the definition must BEHAVE like a
+    fresh definition built from its own triple under every single further operation"""
+    import copy
+    D = concepts.Definition
+    fails = []
+    names = _names_in(case)
+    trip = (result.objects, result.properties, result.bools)
+    probes = []
+    for x in names:
+        probes += [('add_object', (x,)), ('add_property', (x,)), ('remove_object', (x,)), ('remove_property', (x,)),
+                   ('set_object', (x, [names[0]])), ('set_property', (x, [names[-1]]))]
+        for y in names[:3]:
+            probes += [('__getitem__', ((x, y),)), ('__getitem__', ((y, x),)), ('__setitem__', ((x, y), True)),
+                       ('rename_object', (y, x)), ('rename_property', (y, x))]
+    for fname, fa in probes:
+        outcomes = []
+        for obj in (copy.deepcopy(result), D(*trip)):
+            try:
+                rv = getattr(obj, fname)(*fa)
+                outcomes.append((rv, obj.objects, obj.properties, obj.bools))
+            except (KeyError, ValueError) as e:
+                outcomes.append(type(e).__name__)
+        if outcomes[0] != outcomes[1]:
+            fails.append(f'{what}: afterwards {fname}{fa!r} behaves differently from a fresh definition built from the '
+                         f'same triple (residue): {outcomes[0]} vs {outcomes[1]}')
+            break
     return fails
